@@ -586,3 +586,73 @@ func VerifH_c11_signals() {
 	ds.leaveListBlock(w1)
 	ds.leaveListBlock(w2)
 }
+
+// VerifH_c12_leave_queue: a block that ends without data (timeout, CLIENT
+// UNBLOCK, disconnect) takes exactly that client out of the wait queues:
+// three waiters registered in order on symbolic subsets of two keys, one of
+// them (any) leaves; the others keep their places, the queues stay
+// consistent, and a later push still serves the remaining waiters, oldest
+// first.
+func VerifH_c12_leave_queue() {
+	wt := newWaitTable()
+	keys := []string{"a", "b"}
+	var ws [3]*wakeSignal
+	var on [3][2]bool
+	for i := 0; i < 3; i++ {
+		sel := 1 + vChoice("keys", 3) // bit0: a, bit1: b
+		var names []string
+		for j := 0; j < 2; j++ {
+			if sel>>j&1 == 1 {
+				on[i][j] = true
+				names = append(names, keys[j])
+			}
+		}
+		if len(names) == 1 {
+			ws[i] = wt.enterWait(names[0])
+		} else {
+			ws[i] = wt.enterMultiWait(names)
+		}
+	}
+	leaver := vChoice("leaver", 3)
+	wt.disposeWakeSignal(ws[leaver])
+	vAssert("leaver-not-signalled", len(ws[leaver].ready) == 0)
+	for j := 0; j < 2; j++ {
+		var want []*wakeSignal
+		for i := 0; i < 3; i++ {
+			if on[i][j] && i != leaver {
+				want = append(want, ws[i])
+			}
+		}
+		list, exists := wt.table[keys[j]]
+		vAssert("queue-kept-while-others-wait", exists == (len(want) > 0))
+		if !exists {
+			continue
+		}
+		k := 0
+		okq := true
+		for ref := list.queueHead; ref != nil && k <= len(want); ref = ref.queueNext {
+			if k >= len(want) || ref.signal != want[k] {
+				okq = false
+			}
+			k++
+		}
+		vAssert("remaining-waiters-keep-their-order", okq && k == len(want))
+	}
+	// a later push on either key serves the oldest remaining waiter of that key
+	target := vChoice("target", 2)
+	wt.unblock(keys[target], 1)
+	served := -1
+	for i := 0; i < 3; i++ {
+		if i != leaver && on[i][target] {
+			served = i
+			break
+		}
+	}
+	for i := 0; i < 3; i++ {
+		if i == served {
+			vAssert("later-push-serves-the-oldest-remaining-waiter", len(ws[i].ready) == 1)
+		} else {
+			vAssert("nobody-else-is-signalled", len(ws[i].ready) == 0)
+		}
+	}
+}
